@@ -21,7 +21,7 @@ Tokens == SeqsUpTo(Alphabet, TokChars)
 JoinTokens == {t \in SeqsUpTo(Alphabet, PartChars) : t = <<>> \/ t[1] # 32}
 
 P(str) == str
-Probe == LET inner == Obj(<<<<97>>, <<49>>, <<>>>>, <<IntV(1), Arr(<<Null>>), Str(<<120>>)>>)
+Probe == LET inner == Obj(<<<<97>>, <<49>>, <<>>, <<48>>>>, <<IntV(1), Arr(<<Null>>), Str(<<120>>), Null>>)      \* (the member "0" holds null: a value, not "missing")
              leaf == Arr(<<IntV(0), inner, Str(<<97, 98>>)>>)
              ks == <<<<97>>, <<48>>, <<49>>, <<126>>, <<47>>, <<>>, <<233>>, <<32>>, <<45>>, <<43>>, <<35>>, <<48, 49>>, <<43, 49>>, <<32, 49>>, <<126, 49>>, <<97, 47>>, <<49, 1634>>, <<49, 50>>>>
          IN Obj(ks, [i \in 1..Len(ks) |-> IF i % 3 = 0 THEN inner ELSE leaf])
